@@ -604,7 +604,10 @@ Fixpoint shaped (f : nat) (h : addr -> option cell) (a : addr) : Prop :=
       match n with
       | NInt _ _ _ | NFloat _ _ | NCtrl _ => True
       | NStr _ data bytes => len bytes = 0 \/ data_live h data
-      | NChunked _ _ _ _ chunks => Forall (shaped f' h) chunks
+      | NChunked text _ _ _ chunks =>
+          (* every chunk is a definite string of the kind of the chunked string (the documented rule of
+             cbor_bytestring_add_chunk / cbor_string_add_chunk; the former asserts it) *)
+          Forall (fun c => shaped f' h c /\ exists rcc data bs, h c = Some (CItem rcc (NStr text data bs))) chunks
       | NArr _ data _ elems => (elems = [] \/ data_live h data) /\ Forall (shaped f' h) elems
       | NMap _ data _ pairs =>
           (pairs = [] \/ data_live h data) /\
@@ -628,7 +631,8 @@ Proof.
   destruct n as [neg iw v|fw bits|v|text data bytes|text hdr arr cap chunks|indef data al elems|indef data al pairs|v c].
   - exact I. - exact I. - exact I.
   - destruct S as [S|S]; [left; exact S|right; eapply data_live_frame; eassumption].
-  - eapply Forall_impl; [|exact S]. intros x. apply IH.
+  - eapply Forall_impl; [|exact S]. intros x [Sx (rcc & dc & bs & Ec)]. split; [apply IH, Sx|].
+    exists rcc, dc, bs. rewrite F; [exact Ec|eapply L; exact Ec].
   - destruct S as [S1 S2]. split.
     + destruct S1 as [S1|S1]; [left; exact S1|right; eapply data_live_frame; eassumption].
     + eapply Forall_impl; [|exact S2]. intros x. apply IH.
@@ -1232,6 +1236,8 @@ Variable extra : list addr.
 Hypothesis nodeof_kids : forall d c l, kids (nodeof d c l) = l.
 Hypothesis nodeof_blocks : forall d c l, dblocks (nodeof d c l) = olist d ++ extra.
 Variable capinv : option addr -> N -> list addr -> Prop.
+(* what the push function requires of the node of the member it is given *)
+Variable okx : node -> Prop.
 
 Definition push_post (w : world) (x : addr) (d : option addr) (l : list addr) (rcx : N) (nx : node)
     (ok : bool) (w' : world) : Prop :=
@@ -1248,13 +1254,14 @@ Definition push_post (w : world) (x : addr) (d : option addr) (l : list addr) (r
 Hypothesis Hpush : forall w x d c l rcx nx,
   wf w -> heap w m = Some (CItem 1 (nodeof d c l)) ->
   (forall b, In b (dblocks (nodeof d c l)) -> is_data w b /\ cnt b (dblocks (nodeof d c l)) = 1) ->
-  capinv d c l -> heap w x = Some (CItem rcx nx) -> m <> x ->
+  capinv d c l -> heap w x = Some (CItem rcx nx) -> okx nx -> m <> x ->
   wp (push m x) w (push_post w x d l rcx nx).
 
 Definition child_ok (e : addr) : Prop :=
   e < m /\
   forall w own ownd, Inv own ownd [] w -> m <= next w -> (forall b, b < m -> heap w b = heap w0 b) ->
-    wp (cp e) w (gpost rdr f own ownd e w).
+    wp (cp e) w (fun r w' => gpost rdr f own ownd e w r w' /\
+                            forall x rc n, r = Some x -> heap w' x = Some (CItem rc n) -> okx n).
 
 Notation PartialL := (Partial f w0 own0 ownd0 m).
 
@@ -1295,7 +1302,7 @@ Proof using All.
     pose proof P as (P1 & P2 & P3 & P4 & P5 & P6 & P7 & P8 & P9).
     pose proof (Inv_wf _ _ _ _ P3) as Hwf.
     apply wp_bind. eapply wp_mono; [apply (Hc w _ ownd0 P3 ltac:(lia) P2)|].
-    intros r1 w2 (Q1 & Q2 & Q3). destruct r1 as [x|].
+    intros r1 w2 [(Q1 & Q2 & Q3) Qok]. destruct r1 as [x|].
     + (* the member has been copied *)
       destruct Q3 as (Hx & I2 & FO & Sx).
       destruct (partial_child f w0 own0 ownd0 I0 m Hm w w2 rank [] x P Q1 Q2 Hx I2 FO) as (rank' & P').
@@ -1305,7 +1312,7 @@ Proof using All.
       destruct (Inv_owned_item _ _ _ _ R3 Ox) as (rcx & nx & Ex & _).
       assert (rcx = 1) by (eapply R4; [|exact Ex]; lia). subst rcx.
       apply wp_bind. eapply wp_mono.
-      { apply (Hpush w2 x d c done' 1 nx (Inv_wf _ _ _ _ R3) Em2); [|exact Cap|exact Ex|lia].
+      { apply (Hpush w2 x d c done' 1 nx (Inv_wf _ _ _ _ R3) Em2); [|exact Cap|exact Ex|exact (Qok x 1 nx eq_refl Ex)|lia].
         intros b Hb. destruct (Inv_dblock_live _ _ [] w2 m 1 _ b R3 Em2 ltac:(lia) Hb) as (S1 & S2 & _).
         split; [exact S1|exact S2]. }
       intros ok w3 PP. destruct ok; unfold push_post in PP.
@@ -1584,8 +1591,9 @@ Proof.
   eapply wp_mono.
   - apply (gloop_spec (abs f) (fun h1 h2 x => abs_frame h1 h2 f x) f w0 own0 ownd0 I0 (next w0) eq_refl
              (arr_cp data) (array_push refuse) (NArr indef) []
-             (fun d c l => eq_refl) (fun d c l => eq_sym (app_nil_r _)) (capinvA indef)
-             (array_push_spec indef (next w0)) elems [] [] w1 L1).
+             (fun d c l => eq_refl) (fun d c l => eq_sym (app_nil_r _)) (capinvA indef) (fun _ => True)
+             (fun w x d c l rcx nx H1 H2 H3 H4 H5 _ H6 => array_push_spec indef (next w0) w x d c l rcx nx H1 H2 H3 H4 H5 H6)
+             elems [] [] w1 L1).
     intros e He. rewrite Forall_forall in Sh. specialize (Sh e He). split; [eapply shaped_lt; eassumption|].
     intros w own ownd I Hle Fr. unfold arr_cp.
     destruct Dl as [->|(d & sz & -> & Ed)]; [destruct He|].
@@ -1595,7 +1603,7 @@ Proof.
     + eapply (child_copy_moved w0 own0 ownd0 e w' own ownd I0 Sh).
       * eapply Inv_heq; [exact I|intros b; rewrite H1; reflexivity|lia].
       * intros b Hb. rewrite H1. apply Fr, Hb.
-    + intros r w'' [P _]. eapply gpost_heq; [|intros b; rewrite H1; reflexivity|exact H2|exact P].
+    + intros r w'' [P _]. split; [|intros; exact Logic.I]. eapply gpost_heq; [|intros b; rewrite H1; reflexivity|exact H2|exact P].
       intros h1 h2 x. apply abs_frame.
   - intros r w' LP. cbn [app] in LP.
     eapply (finish_post (abs f) w0 own0 ownd0 a (NArr indef) (capinvA indef) w1 elems r w' (fun _ => True) Le LP).
@@ -1706,16 +1714,16 @@ Lemma add_chunk_push_spec text hdr m w x d c l rcx nx :
   wf w -> heap w m = Some (CItem 1 (NChunked text hdr d c l)) ->
   (forall b, In b (dblocks (NChunked text hdr d c l)) ->
              is_data w b /\ cnt b (dblocks (NChunked text hdr d c l)) = 1) ->
-  capinvC d c l -> heap w x = Some (CItem rcx nx) -> m <> x ->
+  capinvC d c l -> heap w x = Some (CItem rcx nx) -> chunk_ok text nx -> m <> x ->
   wp (add_chunk refuse m x) w (push_post m (NChunked text hdr) capinvC w x d l rcx nx).
 Proof.
-  intros Hwf Em Hb (C1 & C2 & C3) Ex Hmx. cbn [dblocks] in Hb.
+  intros Hwf Em Hb (C1 & C2 & C3) Ex Hk Hmx. cbn [dblocks] in Hb.
   destruct (Hb hdr ltac:(apply in_or_app; right; left; reflexivity)) as [(hsz & Eh) Ch].
   assert (BI : block_inv w d c).
   { destruct d as [o|]; [|apply C1; reflexivity]. apply Hb. left. reflexivity. }
   assert (Hdh : d <> Some hdr).
   { intros ->. cbn [HRef_proofs.opt_list app cnt] in Ch. rewrite N.eqb_refl in Ch. lia. }
-  destruct (add_chunk_spec refuse m x w 1 text hdr hsz d c l rcx nx Hwf Em Eh BI Hdh Ex Hmx C2) as [Room Full].
+  destruct (add_chunk_spec refuse m x w 1 text hdr hsz d c l rcx nx Hwf Em Eh BI Hdh Ex Hk Hmx C2) as [Room Full].
   destruct (N.eq_dec (len l) c) as [L|L].
   - specialize (Full L). destruct (grow_req SZ_PTR c) as [[c' bytes]|].
     + destruct Full as (G1 & G2 & G3 & G4 & Full). destruct (refuse (nreq w) bytes).
@@ -1735,9 +1743,9 @@ Proof.
 Qed.
 
 (* the copy of a definite chunk yields the same bytes *)
-Lemma chunk_gpost own ownd e w rc n r w' :
+Lemma chunk_gpost tx own ownd e w rc n r w' :
   heap w e = Some (CItem rc n) ->
-  copy_post f own ownd e w r w' -> gpost chunk_bytes f own ownd e w r w'.
+  copy_post f own ownd e w r w' -> gpost (chunk_bytes tx) f own ownd e w r w'.
 Proof.
   intros E [(P1 & P2 & P3) S]. split; [exact P1|]. split; [exact P2|]. destruct r as [x|]; [|exact P3].
   destruct P3 as (Q1 & Q2 & Q3 & _). split; [exact Q1|]. split; [exact Q2|]. split; [exact Q3|].
@@ -1745,6 +1753,7 @@ Proof.
   destruct n as [neg iw v|fw bits|v|text data bytes|text hdr arr cap chunks|indef data al elems|indef data al pairs|v c].
   4:{ destruct (S rc text data bytes E) as (d' & sz & Ex & Ed).
       eapply sim_rd_bind; [exact Ex|]. intros rc1 n1 E1. rewrite E in E1. inversion E1; subst rc1 n1. cbn [snd].
+      destruct (Bool.eqb text tx); [|intros w1 t w1' H1 E2; discriminate E2].
       apply sim_bind; [|intros _; apply sim_ret]. apply sim_unit.
       - intros w1 u w1' H1 Hu. destruct (len bytes =? 0).
         + unfold ret in Hu. injection Hu as _ Hw. subst w1'. exact H1.
@@ -1752,29 +1761,34 @@ Proof.
       - intros w2 H2. destruct (len bytes =? 0).
         + exists w2. split; [reflexivity|exact H2].
         + eapply touch_total; [exact H2|exact Ed]. }
-  all: intros w1 t w1' H1 E1; exfalso; unfold bind, rd_item in E1; rewrite H1, E in E1; discriminate E1.
+  all: intros w1 t w1' H1 E1; exfalso; unfold bind, rd_item in E1; rewrite H1, E in E1; cbn [snd] in E1;
+    try discriminate E1; destruct (Bool.eqb text tx); discriminate E1.
 Qed.
 
 Lemma chk_finish w0 own0 ownd0 a rc text hdr arr cap chunks w1 :
   Inv own0 ownd0 [] w0 -> heap w0 a = Some (CItem rc (NChunked text hdr arr cap chunks)) ->
-  Forall (shaped f (heap w0)) chunks ->
-  LI chunk_bytes f w0 own0 ownd0 (next w0) (NChunked text (next w0 + 1)) capinvC w1 [] [] ->
+  Forall (fun c => shaped f (heap w0) c /\ exists rcc data bs, heap w0 c = Some (CItem rcc (NStr text data bs))) chunks ->
+  LI (chunk_bytes text) f w0 own0 ownd0 (next w0) (NChunked text (next w0 + 1)) capinvC w1 [] [] ->
   next w0 <= next w1 ->
   wp (chk_loop (next w0) chunks) w1 (copy_post (S f) own0 ownd0 a w0).
 Proof.
   intros I0 Ea Sh L1 Le. eapply wp_ext; [apply chk_loop_eq|].
   eapply wp_mono.
-  - apply (gloop_spec chunk_bytes chunk_bytes_frame f w0 own0 ownd0 I0 (next w0) eq_refl
+  - apply (gloop_spec (chunk_bytes text) (fun h1 h2 x => chunk_bytes_frame h1 h2 text x) f w0 own0 ownd0 I0 (next w0) eq_refl
              (copy refuse f) (add_chunk refuse) (NChunked text (next w0 + 1)) [next w0 + 1]
-             (fun d c l => eq_refl) (fun d c l => eq_refl) capinvC
+             (fun d c l => eq_refl) (fun d c l => eq_refl) capinvC (chunk_ok text)
              (add_chunk_push_spec text (next w0 + 1) (next w0)) chunks [] [] w1 L1).
-    intros e He. rewrite Forall_forall in Sh. specialize (Sh e He). split; [eapply shaped_lt; eassumption|].
-    intros w own ownd I Hle Fr. destruct (shaped_live _ _ _ Sh) as (rce & ne & Ee & _).
+    intros e He. rewrite Forall_forall in Sh. destruct (Sh e He) as [She (rce & de & bse & Ee)].
+    split; [eapply shaped_lt; eassumption|].
+    intros w own ownd I Hle Fr.
     pose proof (live_lt _ _ _ _ _ _ I0 Ee) as Lte.
-    eapply wp_mono; [apply (child_copy w0 own0 ownd0 e w own ownd I0 Sh I Fr)|].
-    intros r w'' P. eapply chunk_gpost; [rewrite Fr by exact Lte; exact Ee|exact P].
+    assert (Eew : heap w e = Some (CItem rce (NStr text de bse))) by (rewrite Fr by exact Lte; exact Ee).
+    eapply wp_mono; [apply (child_copy w0 own0 ownd0 e w own ownd I0 She I Fr)|].
+    intros r w'' P. split; [eapply chunk_gpost; [exact Eew|exact P]|].
+    intros x rcx nx -> Ex. destruct P as [_ Sl]. destruct (Sl x eq_refl rce text de bse Eew) as (d' & sz & Ex' & _).
+    rewrite Ex in Ex'. injection Ex' as _ ->. unfold chunk_ok. destruct text; [exact Logic.I|eauto].
   - intros r w' LP. cbn [app] in LP.
-    eapply (finish_post chunk_bytes w0 own0 ownd0 a (NChunked text (next w0 + 1)) capinvC w1 chunks r w' (fun _ => True) Le LP).
+    eapply (finish_post (chunk_bytes text) w0 own0 ownd0 a (NChunked text (next w0 + 1)) capinvC w1 chunks r w' (fun _ => True) Le LP).
     + intros rc0 text0 d0 bytes E0. rewrite Ea in E0. discriminate E0.
     + intros done' d c rank P Em (C1 & C2 & C3) Sims. pose proof P as (P1 & P2 & P3 & P4 & P5 & P6 & P7 & P8 & P9).
       destruct (Inv_dblock_live _ _ [] w' (next w0) 1 _ (next w0 + 1) P3 Em ltac:(lia)
@@ -1798,7 +1812,7 @@ Qed.
 
 Lemma copy_chk_post own ownd a w rc text hdr arr cap chunks :
   Inv own ownd [] w -> heap w a = Some (CItem rc (NChunked text hdr arr cap chunks)) ->
-  Forall (shaped f (heap w)) chunks ->
+  Forall (fun c => shaped f (heap w) c /\ exists rcc data bs, heap w c = Some (CItem rcc (NStr text data bs))) chunks ->
   wp (r <- new_indefinite_string refuse text ;;
       match r with None => ret None | Some res => chk_loop res chunks end) w
      (copy_post (S f) own ownd a w).
@@ -2682,8 +2696,8 @@ Qed.
 Lemma abs_keeps fuel a w t w' : abs fuel a w = Ret t w' -> heap w' = heap w.
 Proof. intros H. apply (abs_readonly _ _ _ _ _ H). Qed.
 
-Lemma chunk_bytes_keeps a w t w' : chunk_bytes a w = Ret t w' -> heap w' = heap w.
-Proof. intros H. apply (chunk_bytes_readonly a w t w' H). Qed.
+Lemma chunk_bytes_keeps tx a w t w' : chunk_bytes tx a w = Ret t w' -> heap w' = heap w.
+Proof. intros H. apply (chunk_bytes_readonly tx a w t w' H). Qed.
 
 Lemma str_guard_inv (bytes : list N) data w u w' :
   (if len bytes =? 0 then ret tt else touch_data false data) w = Ret u w' ->
@@ -2712,14 +2726,17 @@ Proof.
   - apply bind_inv in H. destruct H as (u & w2 & E2 & H). apply touch_inv in E2. destruct E2 as [H2 _].
     apply bind_inv in H. destruct H as (u3 & w3 & E3 & H). apply guard_inv in E3. destruct E3 as [H3 _].
     apply bind_inv in H. destruct H as (cs & w4 & E4 & _).
-    destruct (mapM_each chunk_bytes chunk_bytes_keeps _ _ _ _ E4) as [_ F].
+    destruct (mapM_each (chunk_bytes text) (chunk_bytes_keeps text) _ _ _ _ E4) as [_ F].
     eapply Forall_impl; [|exact F]. intros c (wa & y & wb & Ha & Ec).
     assert (Hh : heap wa = heap w) by (rewrite Ha, H3, H2; reflexivity).
     unfold chunk_bytes in Ec. apply bind_inv in Ec. destruct Ec as ([rcc nc] & wc & Ec1 & Ec).
     unfold rd_item in Ec1. rewrite Hh in Ec1. destruct (heap w c) as [[rc1 n1|sz]|] eqn:Ecc; try discriminate Ec1.
-    injection Ec1 as -> -> <-. cbn [snd] in Ec. destruct nc; try discriminate Ec.
+    injection Ec1 as -> -> <-. cbn [snd] in Ec.
+    destruct nc as [| | |text0 data bytes|text0 ? ? ? ?| | |]; try discriminate Ec;
+      destruct (Bool.eqb_spec text0 text) as [->|Ne]; try discriminate Ec.
     apply bind_inv in Ec. destruct Ec as (u5 & w5 & E5 & _). apply str_guard_inv in E5. cbn [heap] in E5.
-    exists rcc, (NStr text0 data bytes). split; [exact Ecc|]. split; [eapply B; exact Ecc|].
+    split; [|eauto].
+    exists rcc, (NStr text data bytes). split; [exact Ecc|]. split; [eapply B; exact Ecc|].
     apply E5.
   - apply bind_inv in H. destruct H as (u & w2 & E2 & H). apply guard_inv in E2. destruct E2 as [H2 G2].
     apply bind_inv in H. destruct H as (xs & w3 & E3 & _).
@@ -2777,7 +2794,7 @@ Lemma abs_unfold f a :
      | NChunked text hdr arr _ chunks =>
          touch_data false (Some hdr) ;;;
          (match chunks with [] => ret tt | _ => touch_data false arr end) ;;;
-         cs <- mapM chunk_bytes chunks ;;
+         cs <- mapM (chunk_bytes text) chunks ;;
          ret (if text then ITextI cs else IBytesI cs)
      | NArr indef data _ elems =>
          (match elems with [] => ret tt | _ => touch_data false data end) ;;;
@@ -2858,7 +2875,9 @@ Fixpoint shapedb (f : nat) (h : addr -> option cell) (a : addr) : bool :=
         match n with
         | NInt _ _ _ | NFloat _ _ | NCtrl _ => true
         | NStr _ data bytes => (len bytes =? 0) || data_liveb h data
-        | NChunked _ _ _ _ chunks => forallb (shapedb f' h) chunks
+        | NChunked text _ _ _ chunks =>
+            forallb (fun c => shapedb f' h c &&
+                              match h c with Some (CItem _ (NStr t _ _)) => Bool.eqb t text | _ => false end) chunks
         | NArr _ data _ elems =>
             ((match elems with [] => true | _ => false end) || data_liveb h data) && forallb (shapedb f' h) elems
         | NMap _ data _ pairs =>
@@ -2887,7 +2906,10 @@ Proof.
   destruct n as [neg iw v|fw bits|v|text data bytes|text hdr arr cap chunks|indef data al elems|indef data al pairs|v [x|]].
   - exact I. - exact I. - exact I.
   - apply orb_true_iff in H. destruct H as [H|H]; [left; apply N.eqb_eq, H|right; apply data_liveb_ok, H].
-  - apply Forall_forall. intros c Hc. apply IH. rewrite forallb_forall in H. apply H, Hc.
+  - apply Forall_forall. intros c Hc. rewrite forallb_forall in H. specialize (H c Hc).
+    apply andb_true_iff in H. destruct H as [H1 H2]. split; [apply IH, H1|].
+    destruct (h c) as [[rcc nc|szc]|]; try discriminate H2. destruct nc as [| | |t dc bs| | | |]; try discriminate H2.
+    apply Bool.eqb_prop in H2. subst t. eauto.
   - apply andb_true_iff in H. destruct H as [H1 H2]. split.
     + apply orb_true_iff in H1. destruct H1 as [H1|H1]; [left; destruct elems; [reflexivity|discriminate]|right; apply data_liveb_ok, H1].
     + apply Forall_forall. intros c Hc. apply IH. rewrite forallb_forall in H2. apply H2, Hc.
